@@ -160,7 +160,8 @@ class ReceivingMessage:
                 length = int.from_bytes(payload[i+4:i+8], "big")
                 self.annotations[annotation_id] = payload[i+8:i+8+length]     # note: it stores a memoryview!
                 i += 8 + length
-            assert i == self.annotations_size
+            if i != self.annotations_size:
+                raise errors.ProtocolError("annotation chunks don't match the annotations size in the message header")
             self.data = payload[self.annotations_size:]
         else:
             self.data = payload
